@@ -25,5 +25,4 @@ def tableC01A : List (String × Rd String) := [
   ("spec.Gaussian.ln_f_real", dx rd_Gaussian Spec.Gaussian.lnPdf)
 ]
 
-def table : List (String × Rd String) := tableC01A
 end HandDispatch
